@@ -82,6 +82,7 @@ def b_rules(p: Project, rep: Report):
     rep.rule("B-R2", "every constructor parameter is stored under its own name, every stored field has a class-level validator, and every store lies inside the try that turns ValueError into OFXHeaderError")
     rep.rule("B-R4", "validators: OFXHEADER is OneOf(100) / OneOf(200); all four file-UID fields are String(36); v1 VERSION is a 3-digit Integer, v2 VERSION an enumeration of 2xx values; SECURITY agrees between the classes; the v1 token fields admit exactly the OFX 1.x tokens (DATA: OFXSGML; COMPRESSION: NONE; CHARSET: ISO-8859-1, 1252, NONE; ENCODING: USASCII, UNICODE and at most UTF-8 beside them)")
     rep.rule("B-R5", "parse() hands the captured strings to the constructor unmodified (keys lower-cased only) and fails with OFXHeaderError when the regex does not match")
+    rep.rule("B-R11", "fields the constructors convert with int() (OFXHEADER, VERSION) are captured by digit-only groups: int() accepts underscores, signs and blanks, so a wider group lets a non-numeric field through as a number")
     rep.rule("B-R6", "reader covers writer: for every field, every token its validator admits (and the UID alphabet [A-Za-z0-9_-], up to 36 characters) is in the language of the field's regex group")
     for clsname, major in (("OFXHeaderV1", 1), ("OFXHeaderV2", 2)):
         ci = p.get_class(HEADER, clsname)
@@ -193,6 +194,13 @@ def b_rules(p: Project, rep: Report):
                 rep.check("B-R6", f"{clsname}.regex:{gname}-admits-uid-alphabet", ok, f"the regex group for {fname.upper()} rejects {miss[:8]} / allows at most {maxrep} characters: a header the library itself generates is refused" if not ok else "", r.where)
             elif kind == "Integer":
                 rep.check("B-R6", f"{clsname}.regex:{gname}-admits-digits", set("0123456789") <= cs, "", r.where)
+            # a field the constructor passes through int() is numeric only if the PATTERN says so: int() itself
+            # accepts '1_02', ' 102', '+102' - whatever else the group lets through is read as a number
+            st_ = stored.get(fname) if "stored" in dir() else None
+            through_int = st_ is not None and any(isinstance(c_, ast.Call) and isinstance(c_.func, ast.Name) and c_.func.id == "int" for c_ in ast.walk(st_.value))
+            if through_int:
+                extra = sorted(cs - set("0123456789"))
+                rep.check("B-R11", f"{clsname}.regex:{gname}-digits-only", not extra, f"the group for {fname.upper()} also admits {[repr(x) for x in extra[:6]]}...; the constructor converts it with int(), which accepts underscores and signs: a non-numeric {fname.upper()} such as 1_02 yields a header object" if extra else "", r.where)
     # B-R7 / B-R8: what the pattern lets through before any validator sees it
     rep.rule("B-R7", "a missing mandatory field is refused: every named group of a header pattern lies on the pattern's mandatory spine (not under `?`, `*`, `{0,n}` or an alternative) - except COMPRESSION of the v1 header, which the pattern of the pinned tree makes optional and the constructor defaults")
     rep.rule("B-R8", "an over-long last field is refused, not cut: the pattern is applied with match() (no end anchor), so its final consuming item must not have a finite upper bound - a bounded `{1,36}` there stops after 36 characters, hands a valid-looking value to the validator and leaves the rest in front of the message body")
